@@ -121,7 +121,21 @@ def _finish(I, s, states, brk, esc, ctx):
     return out
 
 
+def iter_protocol(I, st, itv, ctx):
+    """An object whose class defines __iter__ (contract or real code): the iterable it yields."""
+    if isinstance(itv, Ref) and st.heap[itv.oid].kind == "obj" and st.heap[itv.oid].cls:
+        f = I.src.find_method(st.heap[itv.oid].cls, "__iter__")
+        if f is not None:
+            qual = "%s.__iter__" % f[0]
+            if qual in I.contracts:
+                res = I.call(I.bound_method(itv, f), [], {}, st, ctx)
+                if len(res) == 1 and not isinstance(res[0][1], Raise):
+                    return res[0][1]
+    return itv
+
+
 def _for_over(I, s, st, itv, ctx):
+    itv = iter_protocol(I, st, itv, ctx)
     # zip(literal, symbolic) and map objects
     if isinstance(itv, FuncV) and itv.kind == "builtin" and itv.data.get("name") == "$zipobj":
         return _for_zip(I, s, st, itv.data["zargs"], ctx)
@@ -400,6 +414,7 @@ def _comprehension_symbolic(I, e, g, st, itv, ctx, kind):
     the comprehension); the result is a fresh container about whose contents nothing is assumed
     (sound over-approximation — contracts that need more use a loop with an invariant)."""
     U = I.U
+    itv = iter_protocol(I, st, itv, ctx)
     if isinstance(itv, FuncV) and itv.kind == "builtin" and itv.data.get("name") == "$dictitems":
         d = st.heap[itv.data["self"].oid]
         seq, skind = d.keys, "seq"
